@@ -248,6 +248,13 @@ def handle (j : Json) : Option Json := do
   | "round6" =>
       let xs ← getRatList j "xs"
       pure (ratsJ (xs.map round6))
+  | "nc_times" =>
+      let ts ← getIntList j "times"
+      let ft ← getInt j "ft"
+      let fd ← getInt j "fd"
+      match ncWriteTimes ts ft fd with
+      | none => pure raiseJ
+      | some w => pure (Json.mkObj [("values", intsJ w.1), ("ref", intJ w.2), ("read", intsJ (ncReadTimes w))])
   | "param" =>
       let conf ← getArr j "conf"
       let conf ← conf.mapM pgroupOfJson
